@@ -569,27 +569,54 @@ def D3_angle_styles(repo, clause):
             if isinstance(n, ast.Name) and isinstance(n.ctx, ast.Store):
                 assigned_before.add(n.id)
     need = used - assigned_before - set(fn.params)
+    def _binds(body):
+        return need <= {n.id for s_ in body for n in ast.walk(s_) if isinstance(n, ast.Name) and isinstance(n.ctx, ast.Store)}
+
+    def _arm_status(test, v):
+        """'yes' / 'no' / 'maybe': is the arm taken when the tested angle equals v (conjuncts that compare the angle with a literal are decided, others are open)"""
+        conj = test.values if isinstance(test, ast.BoolOp) and isinstance(test.op, ast.And) else [test]
+        st = "yes"
+        for c in conj:
+            e = eq_const(c) if isinstance(c, ast.Compare) else None
+            if e is not None and ast.unparse(e[0]) == var:
+                holds = (e[1] == v) == bool(e[2])
+                if not holds:
+                    return "no"
+            else:
+                st = "maybe"
+        return st
+
+    catch_all = bool(tail)
     for v in lits:
-        mine = []
+        reached = []          # arms that can be taken for this angle, in order; the walk ends at the first arm that is certainly taken
+        closed = False
         for test, body in arms:
-            conj = test.values if isinstance(test, ast.BoolOp) and isinstance(test.op, ast.And) else [test]
-            eqs = [c for c in conj if isinstance(c, ast.Compare) and eq_const(c) is not None and eq_const(c)[2] and ast.unparse(eq_const(c)[0]) == var and eq_const(c)[1] == v]
-            if eqs:
-                mine.append((test, body, len(conj) == 1))
-        total = any(u for _, _, u in mine) or bool(tail)
-        binds = all(need <= {n.id for s in body for n in ast.walk(s) if isinstance(n, ast.Name) and isinstance(n.ctx, ast.Store)} for _, body, _ in mine)
-        obs.append(Ob("D3", clause, fn, t, total and binds and bool(mine),
-                      "equilibrium angle %s: %d branch(es), one of them unconditional=%s, every branch binds %s=%s"
-                      % (v, len(mine), total, sorted(need), binds), construct="%s == %s" % (var, v), slot="angle-literal:%s" % v,
-                      # the literal is admitted by the membership test but no unconditional branch handles it: n and b stay unbound (or keep another angle's values) for that angle
-                      positive=not (total and bool(mine)) and len(arms) >= 2))
+            stt = _arm_status(test, v)
+            if stt == "no":
+                continue
+            reached.append(body)
+            if stt == "yes":
+                closed = True
+                break
+        if not closed and tail:
+            reached.append(tail)
+            closed = True
+        total = closed
+        binds = all(_binds(b) for b in reached)
+        obs.append(Ob("D3", clause, fn, t, total and binds and bool(reached),
+                      "equilibrium angle %s: %d branch(es) can be taken, the chain always ends in one of them=%s, every such branch binds %s=%s"
+                      % (v, len(reached), total, sorted(need), binds), construct="%s == %s" % (var, v), slot="angle-literal:%s" % v,
+                      # the literal is admitted by the membership test but some path through the chain takes no branch: n and b stay unbound (or keep another angle's values) for that angle
+                      positive=not (total and bool(reached)) and len(arms) >= 2))
     arm_lits = set()
     for test, body in arms:
         for c in ast.walk(test):
             e = eq_const(c) if isinstance(c, ast.Compare) else None
             if e is not None and e[2] and ast.unparse(e[0]) == var:
                 arm_lits.add(e[1])
-    obs.append(Ob("D3", clause, fn, t, arm_lits == set(lits), "branch literals %s = membership list %s" % (sorted(arm_lits), sorted(lits)), slot="angle-literal-sets"))
+    open_arm = catch_all or any(_arm_status(test, object()) != "no" for test, body in arms)
+    obs.append(Ob("D3", clause, fn, t, arm_lits <= set(lits) and (arm_lits == set(lits) or open_arm),
+                  "branch literals %s are admitted by the membership list %s%s" % (sorted(arm_lits), sorted(lits), "" if arm_lits == set(lits) else " (the others fall to a branch without angle test)"), slot="angle-literal-sets"))
     # styles returned vs. styles formatted
     from verif_sa.pe import decision_list as dl_
     dl = dl_(fn.node, {p: P(p) for p in fn.params})
